@@ -301,3 +301,21 @@ fn h_w_text_with_overtaking_fin() {
     for s in data.drain(..) { let _ = b.segment_arrives(s); }
     assert_eq!(b.receive().to_vec(), b"hello".to_vec(), "text submitted before the peer's close was not handed to the application (state {:?})", b.status());
 }
+
+//# id=scenario.window_counts_the_unacknowledged_syn props=C17 kind=scenario bound=one_call_sequence_passive_open_65535_octets_submitted_before_the_handshake_completes pair=tcb.Tcb.segments.new_data_stays_inside_send_window
+// KNOWN FINDING (known-findings.txt): an endpoint whose own SYN is still unacknowledged (SYN-RECEIVED / SYN-SENT) budgets
+// the send window from the text octets on the retransmission queue only; the SYN occupies one sequence number, so
+// with a full window of data the last octet lies one beyond SND.UNA + SND.WND.
+#[cfg(vx_replay)]
+#[test]
+fn h_s_window_counts_syn() {
+    let (id_a, a_addr, b_addr) = ids();
+    let mut a = Tcb::open(id_a, 100, 1500);
+    let syn = a.segments().remove(0);
+    let mut b = match segment_arrives_listen(syn, b_addr, a_addr, 300, 1500) { Some(ListenResult::Tcb(t)) => t, _ => panic!("no tcb") };
+    assert_eq!(b.status(), State::SynReceived);
+    b.send(Message::new(vec![7u8; 70_000]));
+    let out = b.segments();
+    let end = out.iter().filter(|s| s.text.len() > 0).map(|s| s.header.seq.wrapping_add(s.text.len() as u32).wrapping_sub(b.snd.una)).max().unwrap_or(0);
+    assert!(end <= b.snd.wnd as u32, "data reaches {end} octets beyond SND.UNA although the peer advertised a window of {}", b.snd.wnd);
+}
